@@ -160,6 +160,27 @@ def joinBoundaries (cfg : Cfg) (shapes : List (List Nat)) (st : State)
       | .ok d2 => joinDofs cfg st p1 d1 p2 d2
   | _, _ => .error .index
 
+/-- a call of the public joining API -/
+inductive Call
+  | jd (p1 : Nat) (I1 : List Nat) (p2 : Nat) (I2 : List Nat)
+  | jb (p1 ax1 side1 p2 ax2 side2 : Nat) (flip : Option (List Bool))
+
+def stepCall (cfg : Cfg) (shapes : List (List Nat)) (st : State) : Call → Except Err State
+  | .jd p1 I1 p2 I2 => joinDofs cfg st p1 I1 p2 I2
+  | .jb p1 ax1 s1 p2 ax2 s2 fl => joinBoundaries cfg shapes st p1 ax1 s1 p2 ax2 s2 fl
+
+/-- a history of calls; a call that raises leaves the object unchanged (both assertions and the
+face enumeration precede the loop) and the caller may go on -/
+def okOr (st : State) : Except Err State → State
+  | .ok st' => st'
+  | .error _ => st
+
+def applyCall (cfg : Cfg) (shapes : List (List Nat)) (st : State) (c : Call) : State :=
+  okOr st (stepCall cfg shapes st c)
+
+def runCalls (cfg : Cfg) (shapes : List (List Nat)) (st : State) (calls : List Call) : State :=
+  calls.foldl (applyCall cfg shapes) st
+
 /-! ### finalize -/
 
 /-- repaired `finalize` (fixes/C14-join-merge.patch), run before `M`/`M_ofs` are computed:
